@@ -472,6 +472,12 @@ def fixed_histories():
               S(op="subscribe", name="moved/sub"), S(op="delete", name="moved"), S(op="delete", name="moved/sub"), S(op="rename", name="inbox", to="old-inbox")]))
     H.append(("delivery-during-command", {}, [sel, {"actor": "agent", "op": "deliver", "mbox": "inbox", "count": 2, "unseen": True}, S(op="store", uid=False, set={"pos": [1]}, how="+", flags=["\\Answered"], silent=False),
               S(op="noop"), S(op="append", mbox="inbox", tok=106, flags=["\\Seen"], date=1650000006)]))
+    H.append(("fetch-implicit-seen", {}, [sel, S(op="fetch", uid=False, set={"pos": [1, 2]}, items="(BODY[])"), S(op="fetch", uid=True, set={"pos": [1]}, items="(FLAGS)"), S(op="noop"),
+              S(op="fetch", uid=False, set={"pos": [2]}, items="(RFC822.TEXT)")]))
+    H.append(("flag-on-off-on", {}, [sel, S(op="store", uid=False, set={"pos": [2]}, how="+", flags=["\\Flagged"], silent=False), S(op="store", uid=False, set={"pos": [2]}, how="-", flags=["\\Flagged"], silent=False),
+              S(op="store", uid=False, set={"pos": [2]}, how="+", flags=["\\Flagged"], silent=False), S(op="noop"),
+              S(op="store", uid=True, set={"all": True}, how="+", flags=["\\Deleted"], silent=True), S(op="store", uid=True, set={"all": True}, how="-", flags=["\\Deleted"], silent=True),
+              S(op="store", uid=True, set={"all": True}, how="+", flags=["\\Deleted"], silent=True), S(op="noop")]))
     return H
 
 
